@@ -17,7 +17,7 @@ From Coq Require Import Reals List ZArith.
 From Tevec Require Import Base.Prelude Base.Num Base.XR Model.Driver Model.Features Model.Cmp Model.Norm
      Model.Binary Model.Reg Model.Fdiff Model.Agg Model.NullView
      Proofs.AggGeneric Proofs.ViewBase Proofs.NullView Proofs.EncRolling.
-From Tevec Require Model.SortCmp Model.Quantile Model.MapOps Model.Cast Proofs.Cast Proofs.NullOrder Proofs.EncMaps
+From Tevec Require Model.SortCmp Model.Quantile Model.Rank Model.MapOps Model.Cast Proofs.Cast Proofs.NullOrder Proofs.EncMaps
      Proofs.CastOutput.
 Import ListNotations.
 
@@ -200,14 +200,17 @@ Theorem C08_encoding_maps :
     (forall ltb lo1 lo2 hi1 hi2, EncMaps.mrel d1 d2 lo1 lo2 -> EncMaps.mrel d1 d2 hi1 hi2 ->
        EncMaps.res_rel d1 d2 (MapOps.vclip d1 ltb lo1 hi1 xs1) (MapOps.vclip d2 ltb lo2 hi2 xs2)) /\
     (forall {F} (o : MapOps.FOps F) cast1 cast2 n, EncMaps.cast_rel d1 d2 o cast1 cast2 ->
-       MapOps.vpct_change d1 o cast1 n xs1 = MapOps.vpct_change d2 o cast2 n xs2).
+       MapOps.vpct_change d1 o cast1 n xs1 = MapOps.vpct_change d2 o cast2 n xs2) /\
+    (forall iabs, EncMaps.imap_rel d1 d2 iabs ->
+       EncMaps.res_rel d1 d2 (MapOps.vabs d1 iabs xs1) (MapOps.vabs d2 iabs xs2)).
 Proof.
   intros T1 T2 I d1 d2 Hn xs1 xs2 HS.
   split; [intros; apply EncMaps.vshift_rel; assumption|].
   split; [intros v1 v2 Hv; split; [apply EncMaps.ffill_rel|apply EncMaps.bfill_rel]; assumption|].
   split; [intros; apply EncMaps.fill_rel; assumption|].
   split; [intros; apply EncMaps.vclip_rel; assumption|].
-  intros F o cast1 cast2 n Hc. apply EncMaps.vpct_rel; assumption.
+  split; [intros F o cast1 cast2 n Hc; apply EncMaps.vpct_rel; assumption|].
+  intros iabs Hi. apply EncMaps.vabs_rel; assumption.
 Qed.
 
 (* the relation is satisfied by the two real dictionaries (f64 with NaN, Option<f64>) on canonical encodings *)
@@ -215,8 +218,22 @@ Theorem C08_encoding_maps_instances :
   forall {A} (inan : A -> bool) (nanv : A), inan nanv = true ->
     EncMaps.none_rel (MapOps.dict_float inan nanv) (MapOps.dict_opt inan) /\
     (forall xs : list A, Forall2 (EncMaps.mrel (MapOps.dict_float inan nanv) (MapOps.dict_opt inan)) xs
-                                 (map (fun x => if inan x then None else Some x) xs)).
-Proof. intros A inan nanv H. split; [apply EncMaps.none_rel_float_opt; exact H|apply EncMaps.mrel_float_opt]. Qed.
+                                 (map (fun x => if inan x then None else Some x) xs)) /\
+    (forall f : A -> A, (forall x, inan x = true -> inan (f x) = true) ->
+                        EncMaps.imap_rel (MapOps.dict_float inan nanv) (MapOps.dict_opt inan) f).
+Proof.
+  intros A inan nanv H. split; [apply EncMaps.none_rel_float_opt; exact H|].
+  split; [apply EncMaps.mrel_float_opt|apply EncMaps.imap_rel_float_opt].
+Qed.
+
+(* not proved (checked by the correspondence on every run only): the rank map `vrank` (vec_map.rs:112-276) under
+   re-encoding — its model (Model/Rank.v) sorts an index vector with the comparator of C08_encoding_order_statistics,
+   so the statement is expected to follow from isort_rel; the full statement is kept visible here *)
+Definition C08_encoding_vrank_statement : Prop :=
+  forall (A : Type) (NA : Num A) (T1 T2 : Type) (D1 : IsNone T1 A) (D2 : IsNone T2 A)
+         (DX1 : SortCmp.IsNoneX T1 A) (DX2 : SortCmp.IsNoneX T2 A) (pct rev : bool) (xs1 : list T1) (xs2 : list T2),
+    SameView D1 D2 xs1 xs2 ->
+    Tevec.Model.Rank.vrank (DT := D1) (DX := DX1) pct rev xs1 = Tevec.Model.Rank.vrank (DT := D2) (DX := DX2) pct rev xs2.
 
 (* ======================= (b) the encoding of the output ================================================== *)
 (* a result (f64, or Option<f64> for the rolling extrema) cast into f64 / f32 / Option<f64> / Option<i32>: null goes
